@@ -408,7 +408,39 @@ Definition show_ft (f : ft) : val :=
 Definition show_fts (l : list ft) : val := VL (map show_ft l).
 Definition show_res (r : res) : val := match r with ROk s => VS s | RErr e => VE e end.
 
-Definition run_C15 (op : N) (alns : list aln) (n : nat) (t : str) (fts : list ft) : val :=
+(* comments=[] (stockholm.py:135-137): the stripped comment lines seen before the terminator / the offending line *)
+Fixpoint comments_of (ls : list str) : list str :=
+  match ls with
+  | [] => []
+  | l :: r => match parse_line l with
+              | IEnd | IBad => []
+              | IComment c => c :: comments_of r
+              | _ => comments_of r
+              end
+  end.
+
+(* a feature with several locations as fts2row sees it (stockholm.py:61-63, 82-87): LocationTuple keeps '+' locations
+   sorted by start (fts.py:186-189); range = (min start, max stop); the left end is judged on the first location's defect,
+   the right end on the last location's *)
+Definition loc3 := (nat * nat * N)%type.
+Fixpoint ins_loc (x : loc3) (l : list loc3) : list loc3 :=
+  match l with
+  | [] => [x]
+  | y :: r => if Nat.ltb (fst (fst x)) (fst (fst y)) then x :: l else y :: ins_loc x r
+  end.
+Definition multi_ft (name : str) (locs : list loc3) : ft :=
+  let sorted := fold_left (fun acc x => ins_loc x acc) locs [] in
+  match sorted with
+  | [] => mkft 0 0 0 name
+  | f :: _ =>
+      let lst := last sorted f in
+      mkft (fold_left Nat.min (map (fun x => fst (fst x)) sorted) (fst (fst f)))
+           (fold_left Nat.max (map (fun x => snd (fst x)) sorted) 0)
+           (N.lor (N.land (snd f) (N.lor D_MISS_LEFT D_BEYOND_LEFT)) (N.land (snd lst) (N.lor D_MISS_RIGHT D_BEYOND_RIGHT)))
+           name
+  end.
+
+Definition run_C15 (op : N) (alns : list aln) (n : nat) (t : str) (fts : list ft) (mf : list (str * list loc3)) : val :=
   match op with
   | 0%N => match alns with
            | a :: _ => VL [VB (wf_aln a); VL [VS (write_text a); show_read (read_text (write_text a))]]
@@ -428,6 +460,9 @@ Definition run_C15 (op : N) (alns : list aln) (n : nat) (t : str) (fts : list ft
            let r1 := fts2row f1 in
            VL [VB (wf_rowstr t);
                VL [show_fts f1; show_res r1; match r1 with ROk s => show_fts (row2fts s) | RErr e => VE e end]]
-  | _ => let r1 := fts2row fts in
-         VL [VB (wf_fts fts); VL [show_res r1; match r1 with ROk s => show_fts (row2fts s) | RErr e => VE e end]]
+  | 7%N => let r1 := fts2row fts in
+           VL [VB (wf_fts fts); VL [show_res r1; match r1 with ROk s => show_fts (row2fts s) | RErr e => VE e end]]
+  | 8%N => VL [VB (wf_text t); VL [show_read (read_text t); VL (map VS (comments_of (py_lines t)))]]
+  | _ => let l := map (fun x => multi_ft (fst x) (snd x)) mf in
+         VL [VB (wf_fts l); show_res (fts2row l)]
   end.
